@@ -17,5 +17,6 @@ Extraction "model.ml"
   Prng.run_hist Prng.g0 Prng.g_seedings Salsa.stream
   PrngConc.init PrngConc.run PrngConc.thr PrngConc.outs PrngConc.seeds PrngConc.log
   SamplersExec.set_uniform SamplersExec.set_bounded SamplersExec.set_zo SamplersExec.set_hwt SamplersExec.set_gauss Samplers.zo_val Samplers.bnd_val Samplers.bnd_tmp SamplersExec.mask_bits
+  GaussExec.get_noise GaussExec.decode_spec
   Params.rows16 Params.rows32 Params.rows64 Shards.K16 Shards.K32 Shards.K64
   Z.modulo Z.div Z.mul Z.add Z.sub Z.pow.
